@@ -134,7 +134,11 @@ def run_one(run: Run, stream, xml, seed_ops, length, rows):
                     mirror.apply(copy.deepcopy(op))
                 except E.Rejected:
                     break
-                if world.apply(op)[0]:
+                try:
+                    if world.apply(op)[0]:
+                        break
+                except KeyError:
+                    problems.append({"why": "an edit addresses a node of the clone that the clone does not have", "op": op})
                     break
                 ops.append(op)
                 got_all = world.dump(mirror)
